@@ -393,6 +393,9 @@ class DisjunctionMaxMatcher(UnionMatcher):
         return max(self.a.block_quality(), self.b.block_quality())
 
     def skip_to_quality(self, minquality):
+        # The sub-matchers are about to move, so forget the cached ID
+        self._id = None
+
         a = self.a
         b = self.b
 
